@@ -9,6 +9,12 @@ NOTES = {
  "C11r4B": "not covered: needs wager to match + minimum raise to exceed 2^63 (a non-all-in bet above 2^62); the workloads stop at bankrolls around 2^58 because sums of ten such stacks no longer fit an int64 in any implementation, the monitors' included",
  "C17r4A": "not covered: needs ApplyStates with a smaller Max than the manager was created with (a different table size mid-history); the seat histories restore documents of the same size only",
 }
+ # appended notes
+NOTES.update({
+ "C20r4A": "not covered: needs the host's RequestTableFn to fail once (fault injection in the callbacks); C20/C09 quantify over histories of tables that follow the regulator's instructions, and the unchanged regulator itself drops the players of a failed table opening",
+ "C08r5B": "not covered: the early deal-in needs the table to collapse to one playing seat while the joiner is still waiting, i.e. other players move between the join and the hand in question - outside the hypothesis 'other players staying put' of the deal-in clause; the position clauses still hold after the change",
+ "C14r5A": "not covered: Deal() returning a window of the deck changes no value by itself; it shows only when the caller re-uses the deck slice of a finished hand for the next one, or appends to a returned list - aliasing between the caller's own objects, which the monitors (working on the published state and on JSON copies) do not provoke",
+})
 rows = []
 for rf in sorted(glob.glob(f"{DST}/results/*.json")):
     key = os.path.basename(rf)[:-5]
